@@ -18,7 +18,8 @@ RULE = ("one case = a history of up to 40 operations over one EventProducer, 2-4
         "remove_all_listeners in its four argument forms, fire, fire_timed, "
         "has_listeners, ill-typed calls) where every listener carries a script "
         "'on my n-th notification of type T do ops' (re-entrant (un)subscription "
-        "and nested firing, depth <= 3), plus (metadata declaration, payload, "
+        "and nested firing, depth <= 3; 30 % of the histories use falsy listeners: "
+        "inbox objects with __len__, objects with __bool__ False), plus (metadata declaration, payload, "
         "check flag) probes; the global delivery log (listener, type, content, "
         "timestamp) is compared with a subscription reference model with "
         "snapshot-at-fire semantics. non-trivial = at least one delivery happened "
